@@ -33,6 +33,9 @@ def resolve_faults(program):
             pos = int(k) % n
             if exc in ("skip", "skip_mark") and eligible and pos not in eligible:
                 pos = eligible[int(k) % len(eligible)]
+            before_sc = [i for i, h in enumerate(base.hooks) if h[0] == "before_scenario"]
+            if exc == "no_background" and before_sc and pos not in before_sc:
+                pos = before_sc[int(k) % len(before_sc)]
             after_sc = [i for i, h in enumerate(base.hooks) if h[0] == "after_scenario"]
             if exc == "skip_feature" and after_sc and pos not in after_sc:
                 pos = after_sc[int(k) % len(after_sc)]
@@ -116,7 +119,12 @@ def status_floor(ref, program):
     if kinds - set(["Exception", "AssertionError", "Exception0", "AssertionError0"]):
         # interrupts / aborts / run-time skips in hooks end the run or exclude elements: only the
         # steps that are known to have run count (no hook-error floor)
-        return {} if ("KeyboardInterrupt" in kinds or "abort" in kinds) else floor
+        if "KeyboardInterrupt" in kinds or "abort" in kinds:
+            return {}
+        for kind, name in ref.cleanup_error_elems:
+            if kind == "scenario":
+                floor[name] = "error"       # a raising cleanup (registered by a step) is an error whatever the hooks skip
+        return floor
     for kind, name in list(ref.hook_error_elems) + list(ref.cleanup_error_elems):
         if kind == "scenario":
             floor[name] = "error"
